@@ -14,12 +14,16 @@ def claim(pid, category, engine, technique, text, note, ref):
     CHECKS[pid] = dict(category=category, engine=engine, technique=technique, text=text, note=note, ref=ref)
 
 
+# properties whose check has been validated by the main session (silent on the unchanged tree, evidence valid)
+READY = ["C02", "C18"]
+
+
 def load_claims():
     """Each props/Cxx.py carries a literal  MANIFEST = {category, engine, technique, text, note, ref}."""
     import ast
     pdir = os.path.join(VERIF, "props")
     for fn in sorted(os.listdir(pdir)):
-        if not (fn.startswith("C") and fn.endswith(".py")):
+        if not (fn.startswith("C") and fn.endswith(".py")) or fn[:-3] not in READY:
             continue
         tree = ast.parse(open(os.path.join(pdir, fn)).read())
         for node in tree.body:
